@@ -194,8 +194,7 @@ End Sweeps.
 Lemma src_intersection_ok a b : src_IPSet_intersection a b = set_intersection a b.
 Proof.
   unfold src_IPSet_intersection, set_intersection, py_sorted_nets. cbv zeta.
-  replace (Z.to_nat (Z.of_nat (length (sorted a)) + Z.of_nat (length (sorted b))) + 1)%nat with (length a + length b + 1)%nat
-    by (rewrite !s_sorted_length; lia).
+  replace (Z.to_nat (Z.of_nat (length a) + Z.of_nat (length b)) + 1)%nat with (length a + length b + 1)%nat by lia.
   rewrite (src_inter_loop_ok (sorted a) (sorted b) _ 0%nat 0%nat []). cbn [skipn].
   destruct (inter_loop (length a + length b + 1) (sorted a) (sorted b) []); reflexivity.
 Qed.
@@ -291,12 +290,16 @@ Section Sweeps2.
       rewrite (py_index_cons _ _ _ _ E). cbn [bind]. next_i i. rewrite IH by lia. rewrite (skipn_S_tail _ _ _ _ E). reflexivity.
   Qed.
 
+  (* FA, FB: the fuel of the tail loops (any number above the length of the list) *)
+  Variable FA : nat.
+  Hypothesis HFA : (length A < FA)%nat.
+
   Definition fin_diff (h : Z * list rng * list net) : outcome (list rng * dict) :=
     let '(i', rs, res') := h in
-    do res'' <- src_IPSet_difference_loop2 (Z.to_nat lenA + 1) lenA A res' i'; Ok (rs, res'').
+    do res'' <- src_IPSet_difference_loop2 FA lenA A res' i'; Ok (rs, res'').
 
   Lemma fin_diff_ok i ranges res : fin_diff (Z.of_nat i, ranges, res) = Ok (ranges, fold_left dset (skipn i A) res).
-  Proof. unfold fin_diff. rewrite src_diff_loop2_ok by (unfold lenA; lia). reflexivity. Qed.
+  Proof. unfold fin_diff. rewrite src_diff_loop2_ok by lia. reflexivity. Qed.
 
   Lemma src_diff_loop_ok : forall fuel i j ranges res,
     bind (src_IPSet_difference_loop1 fuel lenA lenB A B (Z.of_nat i) (Z.of_nat j) ranges res) fin_diff =
@@ -324,6 +327,9 @@ Section Sweeps2.
     - next_i j. rewrite IH, Ea, Sb. reflexivity.
   Qed.
 
+  Variable FB : nat.
+  Hypothesis HFB : (length B < FB)%nat.
+
   (* the two tail loops of symmetric_difference *)
   Lemma src_xor_loop2_ok : forall fuel i ranges, (length A - i < fuel)%nat ->
     src_IPSet_symmetric_difference_loop2 fuel lenA A ranges (Z.of_nat i) = Ok (ranges ++ map rng_of (skipn i A)).
@@ -349,13 +355,13 @@ Section Sweeps2.
 
   Definition fin_xor (h : Z * Z * list rng) : outcome (list rng) :=
     let '(i', j', rs) := h in
-    do rs' <- src_IPSet_symmetric_difference_loop2 (Z.to_nat lenA + 1) lenA A rs i';
-    src_IPSet_symmetric_difference_loop3 (Z.to_nat lenB + 1) lenB B rs' j'.
+    do rs' <- src_IPSet_symmetric_difference_loop2 FA lenA A rs i';
+    src_IPSet_symmetric_difference_loop3 FB lenB B rs' j'.
 
   Lemma fin_xor_ok i j ranges :
     fin_xor (Z.of_nat i, Z.of_nat j, ranges) = Ok ((ranges ++ map rng_of (skipn i A)) ++ map rng_of (skipn j B)).
   Proof.
-    unfold fin_xor. rewrite src_xor_loop2_ok by (unfold lenA; lia). cbn [bind]. rewrite src_xor_loop3_ok by (unfold lenB; lia).
+    unfold fin_xor. rewrite src_xor_loop2_ok by lia. cbn [bind]. rewrite src_xor_loop3_ok by lia.
     reflexivity.
   Qed.
 
@@ -398,16 +404,17 @@ Lemma src_difference_ok a b : SetInv a -> SetInv b -> src_IPSet_difference a b =
 Proof.
   intros Ia Ib. unfold src_IPSet_difference, set_difference, py_sorted_nets. cbv zeta.
   set (A := sorted a). set (B := sorted b).
-  replace (Z.to_nat (Z.of_nat (length A) + Z.of_nat (length B)) + 1)%nat with (length a + length b + 1)%nat
-    by (unfold A, B; rewrite !s_sorted_length; lia).
-  pose proof (src_diff_loop_ok A B (length a + length b + 1) 0 0 [] []) as H. cbn [skipn] in H. change (Z.of_nat 0) with 0 in H.
+  replace (Z.to_nat (Z.of_nat (length a) + Z.of_nat (length b)) + 1)%nat with (length a + length b + 1)%nat by lia.
+  set (FA := (Z.to_nat (Z.of_nat (length a)) + 1)%nat).
+  assert (HFA : (length A < FA)%nat) by (unfold A, FA; rewrite s_sorted_length; lia).
+  pose proof (src_diff_loop_ok A B FA HFA (length a + length b + 1) 0 0 [] []) as H. cbn [skipn] in H. change (Z.of_nat 0) with 0 in H.
   destruct (diff_loop_spec (length a + length b + 1) A B [] [] (s_sorted_good a Ia) (s_sorted_good b Ib)) as (G & R & HG & F & S & _).
   { unfold A, B. rewrite !s_sorted_length. lia. }
   cbn [app] in HG. pose proof (eq_trans H HG) as H2. clear H. rename H2 into H. rewrite HG. cbn [bind fst snd].
   destruct (src_IPSet_difference_loop1 (length a + length b + 1) (Z.of_nat (length A)) (Z.of_nat (length B)) A B 0 0 [] [])
     as [[[i' rs] res']|]; cbn [bind] in H |- *; [|discriminate].
   unfold fin_diff in H.
-  destruct (src_IPSet_difference_loop2 (Z.to_nat (Z.of_nat (length A)) + 1) (Z.of_nat (length A)) A res' i') as [res''|];
+  destruct (src_IPSet_difference_loop2 FA (Z.of_nat (length A)) A res' i') as [res''|];
     cbn [bind] in H |- *; [|discriminate].
   injection H as -> ->.
   rewrite (src_iter_merged_ranges_ok G (Forall_rvalid_rok G F)). cbn [bind].
@@ -420,16 +427,18 @@ Lemma src_symmetric_difference_ok a b : SetInv a -> SetInv b -> src_IPSet_symmet
 Proof.
   intros Ia Ib. unfold src_IPSet_symmetric_difference, set_symdiff, py_sorted_nets. cbv zeta.
   set (A := sorted a). set (B := sorted b).
-  replace (Z.to_nat (Z.of_nat (length A) + Z.of_nat (length B)) + 1)%nat with (length a + length b + 1)%nat
-    by (unfold A, B; rewrite !s_sorted_length; lia).
-  pose proof (src_xor_loop_ok A B (length a + length b + 1) 0 0 []) as H. cbn [skipn] in H. change (Z.of_nat 0) with 0 in H.
+  replace (Z.to_nat (Z.of_nat (length a) + Z.of_nat (length b)) + 1)%nat with (length a + length b + 1)%nat by lia.
+  set (FA := (Z.to_nat (Z.of_nat (length a)) + 1)%nat). set (FB := (Z.to_nat (Z.of_nat (length b)) + 1)%nat).
+  assert (HFA : (length A < FA)%nat) by (unfold A, FA; rewrite s_sorted_length; lia).
+  assert (HFB : (length B < FB)%nat) by (unfold B, FB; rewrite s_sorted_length; lia).
+  pose proof (src_xor_loop_ok A B FA HFA FB HFB (length a + length b + 1) 0 0 []) as H. cbn [skipn] in H. change (Z.of_nat 0) with 0 in H.
   destruct (symdiff_loop_spec (length a + length b + 1) A B [] (s_sorted_good a Ia) (s_sorted_good b Ib)) as (G & HG & F & S & _).
   { unfold A, B. rewrite !s_sorted_length. lia. }
   cbn [app] in HG. pose proof (eq_trans H HG) as H2. clear H. rename H2 into H. rewrite HG. cbn [bind].
   destruct (src_IPSet_symmetric_difference_loop1 (length a + length b + 1) (Z.of_nat (length A)) (Z.of_nat (length B)) A B 0 0 [])
     as [[[i' j'] rs]|]; cbn [bind] in H |- *; [|discriminate].
   unfold fin_xor in H.
-  destruct (src_IPSet_symmetric_difference_loop2 (Z.to_nat (Z.of_nat (length A)) + 1) (Z.of_nat (length A)) A rs i') as [rs'|];
+  destruct (src_IPSet_symmetric_difference_loop2 FA (Z.of_nat (length A)) A rs i') as [rs'|];
     cbn [bind] in H |- *; [|discriminate].
   rewrite H. cbn [bind].
   rewrite (src_iter_merged_ranges_ok G (Forall_rvalid_rok G F)). cbn [bind].
@@ -475,11 +484,11 @@ Lemma C07_ops_tie_ok :
   (forall A B fuel i j res,
      src_IPSet_intersection_loop1 fuel (Z.of_nat (length A)) (Z.of_nat (length B)) A B res (Z.of_nat i) (Z.of_nat j) =
        inter_loop fuel (skipn i A) (skipn j B) res) /\
-  (forall A B fuel i j ranges res,
-     bind (src_IPSet_difference_loop1 fuel (Z.of_nat (length A)) (Z.of_nat (length B)) A B (Z.of_nat i) (Z.of_nat j) ranges res) (fin_diff A) =
+  (forall A B FA, (length A < FA)%nat -> forall fuel i j ranges res,
+     bind (src_IPSet_difference_loop1 fuel (Z.of_nat (length A)) (Z.of_nat (length B)) A B (Z.of_nat i) (Z.of_nat j) ranges res) (fin_diff A FA) =
        diff_loop fuel (skipn i A) (skipn j B) ranges res) /\
-  (forall A B fuel i j ranges,
-     bind (src_IPSet_symmetric_difference_loop1 fuel (Z.of_nat (length A)) (Z.of_nat (length B)) A B (Z.of_nat i) (Z.of_nat j) ranges) (fin_xor A B) =
+  (forall A B FA, (length A < FA)%nat -> forall FB, (length B < FB)%nat -> forall fuel i j ranges,
+     bind (src_IPSet_symmetric_difference_loop1 fuel (Z.of_nat (length A)) (Z.of_nat (length B)) A B (Z.of_nat i) (Z.of_nat j) ranges) (fin_xor A B FA FB) =
        symdiff_loop fuel (skipn i A) (skipn j B) ranges).
 Proof.
   split; [exact src_subtract_ok|]. split; [exact src_iter_merged_ranges_ok|]. split; [exact src_intersection_ok|].
